@@ -362,7 +362,12 @@ ComparePhys(A, B) ==
               ELSE IF kind = "units"   \* same geometry up to scale; one rounding flip (1e-3) of the velocity term: pn * 1e-3 = tolC / 3
                    THEN 200 + Mul(Mul(A.tolC, dcMax) * 3333 + A.tolC \div 3, xScale)
               ELSE Mul(A.tolC + B.tolC, xScale) + 200
-      tolP == IF kind = "relabel" THEN 2000 + 10 * tolX ELSE 10 * (A.tolC + B.tolC) + 2000
+      \* pressures are a linear image of the tensions (gain: turning angles x pseudo-inverse of the cell graph, a few tens at
+      \* most for these tissues): what the two runs may differ by is bounded by what their TENSIONS actually differ by, not by
+      \* the tolerance the tensions were allowed
+      dTs == {Abs(A.e.tens[j][2] - Lookup2(B.e.tens, A.e.tens[j][1])) : j \in {i \in DOMAIN A.e.tens : A.e.tens[i][1] # 0}}
+      dTmax == IF dTs = {} THEN 0 ELSE Min(10000000, CHOOSE d \in dTs : \A d2 \in dTs : d >= d2)
+      tolP == IF kind = "relabel" THEN 2000 + 10 * tolX ELSE Min(10 * (A.tolC + B.tolC), 200 * dTmax) + 2000
       tolC2 == IF kind \in {"relabel", "units"} THEN 1500 ELSE 2 * TolTangent
       tensBad == {j \in DOMAIN A.e.tens : LET q == A.e.tens[j][1] IN q = 0 \/ ~Close(A.e.tens[j][2], Lookup2(B.e.tens, q), tolX)}
       presBad == {j \in DOMAIN A.e.pres : ~Close(A.e.pres[j][2], Lookup2(B.e.pres, A.e.pres[j][1]), tolP)}
